@@ -323,7 +323,11 @@ def make_user_problem(spec, fmt=None, policy=None):
             kw = {}
             if ref.m > 0:
                 kw = dict(cons_lb=ref.cl.copy(), cons_ub=ref.cu.copy())
-            super().__init__(ref.lb.copy(), ref.ub.copy(), **kw)
+            if spec.get("bounds_dtype") == "int":
+                # a user who writes var_lb = np.array([1, 2]): integer-typed bound arrays
+                super().__init__(ref.lb.astype(np.int64), ref.ub.astype(np.int64), **kw)
+            else:
+                super().__init__(ref.lb.copy(), ref.ub.copy(), **kw)
             self._cache = {}
             self.ref = ref
             self.returned = []  # (callback, object) of everything handed to pygradflow
